@@ -1,8 +1,8 @@
 """C15 - response headers act as a case-insensitive map; cookies get separate lines; cookie attributes exact;
 URI-bearing helpers emit ASCII that decodes back."""
 PROP = 'C15'
-LEAN_MODULES = ['FalconModel.RespHeadersProofs', 'FalconModel.CookieOutProofs']
-DRIVERS = ['hddriver', 'cwdriver']
+LEAN_MODULES = ['FalconModel.RespHeadersProofs', 'FalconModel.CookieOutProofs', 'FalconModel.RespProps']
+DRIVERS = ['hddriver', 'cwdriver', 'rpdriver']
 THEOREMS = [
     # round 0: operation-wise statements over an abstract normalisation `norm` (= str.lower) and `cookie` (= 'set-cookie')
     'Hd.get_after_set', 'Hd.get_after_set_other', 'Hd.get_after_delete', 'Hd.get_after_append', 'Hd.cookie_unreachable',
@@ -982,15 +982,68 @@ _U_ALPHA = ['a', 'Z', '0', '/', '/', '?', '=', '&', '#', ' ', '%', '%41', '%zz',
 _F_ALPHA = ['a', 'B', '1', '.', '-', '_', ' ', '(', ')', ',', ';', '%', "'", '+', '=', '&', '/', 'é', 'Å', 'ñ', '日', '本', '😀', '𝟏', 'ﬁ', '"', '\\']
 
 
+def rp_list(l):
+    """a list of str for the rpdriver: `_` = empty list, else the members (code points) joined by ','"""
+    return '_' if not l else ','.join(cp(x) for x in l)
+
+
+def rp_item(x):
+    return 'i%d' % x if isinstance(x, int) else 's' + cp(x)
+
+
+def rp_link_args(tgt, rel, kw):
+    """the ten fields of the rpdriver's `linkv` / `alink` lines for append_link(tgt, rel, **kw)"""
+    ts = kw.get('title_star')
+    hl = kw.get('hreflang')
+    hls = 'N' if hl is None else ('o' + cp(hl) if isinstance(hl, str) else 'm' + rp_list(list(hl)))
+    ext = kw.get('link_extension')
+    exts = 'N' if ext is None else ('_' if not ext else ','.join(f'{cp(a)}:{cp(b)}' for a, b in ext))
+    return ' '.join([cp(tgt), cp(rel), cp_opt(kw.get('title')), 'N' if ts is None else cp(ts[0]), '-' if ts is None else cp(ts[1]),
+                     cp_opt(kw.get('anchor')), hls, cp_opt(kw.get('type_hint')), cp_opt(kw.get('crossorigin')), exts])
+
+
+_RELS = ['next', 'prev', 'http://example.com/ext-type', 'alternate http://example.com/é', 'https://é.example/x y',
+         'alternate\thttp://example.com/x', 'http://a//b\u2003c', ' a  http://x/y\u00a0z ', 'a//b', '//', 'x y', 'http://x/%41 b', 'http://x/\x1f\x85 y']
+_CROSS = ['anonymous', 'Use-Credentials', 'ANONYMOUS', 'use-credentials', 'bogus', 'anonymous ', '', 'anonymou\u017f', 'USE-CREDENT\u0130ALS', 'use_credentials']
+_FN_SPECIAL = ['', '.', '..', '.a', '.é', 'é.', '._', 'a_b', '-x', 'Ångström unit physics.pdf', 'Bold Digit 𝟏', 'ﬁle.txt', '.\u2024x', '\u2024x', 'x\u00aa', '½', 'a\x7fb', '\x80']
+
+
 def _uris(ctx):
     import re
+    import unicodedata
     import urllib.parse
     import falcon
     import falcon.asgi
     import falcon.uri
+    from falcon import response_helpers
     rnd = ctx.rng
     ORA = 'uri helpers: emitted pure ASCII; decoding returns the original'
     ORA_FN = 'download filename: emitted pure ASCII; decoding returns the original'
+    sess = ctx.session('typed header properties and append_link: exact emitted values = Rp model', 'rpdriver')
+
+    def nfkd(s):
+        return unicodedata.normalize('NFKD', s)
+
+    def emitted_value(resp, asgi, name):
+        """the value of header `name` in the list handed to the server (None if absent, a list if emitted more than once)"""
+        if asgi:
+            vals = [v.decode('latin-1') for k, v in resp._asgi_headers() if k == name.encode()]
+        else:
+            vals = [v for k, v in resp._wsgi_headers() if k == name]
+        return None if not vals else (vals[0] if len(vals) == 1 else vals)
+
+    def shown(v):
+        return 'none' if v is None else ('val ' + cp(v) if isinstance(v, str) else f'{len(v)} lines')
+
+    if ctx.shard[0] == 0:
+        # the tables the model takes from CPython / falcon: str.split() whitespace, the characters secure_filename keeps, and the
+        # assumption behind the ASCII lower-casing of the crossorigin check
+        ws = [c for c in range(0x110000) if len(('a' + chr(c) + 'b').split()) == 2]
+        keep = [c for c in range(256) if falcon.secure_filename('a' + chr(c)) == 'a' + chr(c)]
+        alpha = set('anonymous') | set('use-credentials')
+        lower_ok = all(not set(chr(c).lower()) <= alpha for c in range(0x80, 0x110000))
+        sess.case({'tables': 'str.split() whitespace / secure_filename safe characters / str.lower() of non-ASCII'})
+        sess.op('tables', f'{".".join("%x" % c for c in ws)} {".".join("%x" % c for c in keep)} {len(ws) if lower_ok else "lower-assumption-broken"}')
 
     def printable_ascii(s):
         return all(0x20 <= ord(c) <= 0x7e for c in s)
@@ -1039,50 +1092,90 @@ def _uris(ctx):
     for ci in range(ctx.n(16000, 250000)):
         asgi = rnd.random() < 0.5
         resp = (falcon.asgi.Response if asgi else falcon.Response)()
-        kind = rnd.choice(['location', 'content_location', 'link', 'link', 'downloadable_as', 'viewable_as'])
+        kind = rnd.choice(['location', 'content_location', 'link', 'link', 'downloadable_as', 'viewable_as', 'other'])
         ctx.count('uri_' + kind)
         fail = None
+        stack = 'asgi' if asgi else 'wsgi'
         if kind in ('location', 'content_location'):
             s = ''.join(rnd.choice(_U_ALPHA) for _ in range(rnd.randint(1, 10)))
-            case = {'helper': kind, 'value': s, 'stack': 'asgi' if asgi else 'wsgi'}
+            case = {'helper': kind, 'value': s, 'stack': stack}
+            hname = kind.replace('_', '-')
+            sess.case(case); sess.op('new', 'ok')
             try:
                 setattr(resp, kind, s)
-                em = resp.get_header(kind.replace('_', '-'))
+                em = resp.get_header(hname)
                 fail = check_uri(s, em, kind)
-                if not fail:
-                    out = resp._asgi_headers() if asgi else resp._wsgi_headers()
-                    vals = [(v.decode('ascii') if asgi else v) for k, v in out if (k.decode() if asgi else k) == kind.replace('_', '-')]
-                    if vals != [em]: fail = f'{kind}: emitted list carries {vals!r}, get_header returned {em!r}'
+                out_val = emitted_value(resp, asgi, hname)
+                if not fail and out_val != em:
+                    fail = f'{kind}: emitted list carries {out_val!r}, get_header returned {em!r}'
+                sess.op(f'assign {kind} t{cp(s)} -', 'ok')
+                sess.op(f'get {kind}', shown(out_val))
+                sess.op(f'loc {cp(s)}', shown(getattr(resp, kind)))
+                r = rnd.random()
+                if r < 0.15:      # assigning None deletes, silently also when repeated; del raises KeyError once the header is gone
+                    setattr(resp, kind, None)
+                    sess.op(f'assign {kind} N -', 'ok'); sess.op(f'get {kind}', shown(emitted_value(resp, asgi, hname)))
+                    setattr(resp, kind, None)
+                    sess.op(f'assign {kind} N -', 'ok')
+                    try:
+                        delattr(resp, kind); sess.op(f'del {kind}', 'ok')
+                    except KeyError:
+                        sess.op(f'del {kind}', 'err KeyError')
+                elif r < 0.3:
+                    delattr(resp, kind)
+                    sess.op(f'del {kind}', 'ok'); sess.op(f'get {kind}', shown(getattr(resp, kind)))
             except Exception as e:  # noqa
                 fail = f'{kind} = {s!r} raised {type(e).__name__}: {e}'
+                sess.op(f'assign {kind} t{cp(s)} -', 'err')
             ctx.oracle(ORA, fail is None, fail, case)
             ctx.seen(('u', kind, s), not s.isascii() or '%' in s or ' ' in s)
         elif kind == 'link':
             calls = []
             for _ in range(rnd.randint(1, 3)):
                 tgt = ''.join(rnd.choice(_U_ALPHA) for _ in range(rnd.randint(1, 8)))
-                rel = rnd.choice(['next', 'prev', 'http://example.com/ext-type', 'alternate http://example.com/é', 'https://é.example/x y'])
+                rel = rnd.choice(_RELS[:5]) if rnd.random() < 0.7 else rnd.choice(_RELS)
                 kw = {}
-                if rnd.random() < 0.4: kw['title'] = rnd.choice(['A title', 'x, y', 'semi;colon', '<a>'])
-                if rnd.random() < 0.5: kw['title_star'] = (rnd.choice(['', 'en', 'de-AT']), ''.join(rnd.choice(_U_ALPHA) for _ in range(rnd.randint(1, 6))))
-                if rnd.random() < 0.4: kw['anchor'] = ''.join(rnd.choice(_U_ALPHA) for _ in range(rnd.randint(1, 6)))
-                if rnd.random() < 0.3: kw['hreflang'] = rnd.choice(['en', ['en', 'fr'], ('de',)])
-                if rnd.random() < 0.3: kw['type_hint'] = rnd.choice(['text/html', 'application/json'])
-                if rnd.random() < 0.3: kw['crossorigin'] = rnd.choice(['anonymous', 'Use-Credentials', 'ANONYMOUS'])
-                if rnd.random() < 0.2: kw['link_extension'] = [('foo', 'bar'), ('n', '1')][:rnd.randint(1, 2)]
+                if rnd.random() < 0.4: kw['title'] = rnd.choice(['A title', 'x, y', 'semi;colon', '<a>', ''])
+                if rnd.random() < 0.5: kw['title_star'] = (rnd.choice(['', 'en', 'de-AT']), ''.join(rnd.choice(_U_ALPHA) for _ in range(rnd.randint(0 if rnd.random() < 0.1 else 1, 6))))
+                if rnd.random() < 0.4: kw['anchor'] = ''.join(rnd.choice(_U_ALPHA) for _ in range(rnd.randint(0 if rnd.random() < 0.1 else 1, 6)))
+                if rnd.random() < 0.3: kw['hreflang'] = rnd.choice(['en', ['en', 'fr'], ('de',), [], '', ['x', '', 'y-Z']])
+                if rnd.random() < 0.3: kw['type_hint'] = rnd.choice(['text/html', 'application/json', ''])
+                if rnd.random() < 0.3: kw['crossorigin'] = rnd.choice(_CROSS[:3]) if rnd.random() < 0.7 else rnd.choice(_CROSS)
+                if rnd.random() < 0.2: kw['link_extension'] = [('foo', 'bar'), ('n', '1'), ('', '')][:rnd.randint(0, 3)]
                 calls.append((tgt, rel, kw))
-            case = {'helper': 'append_link', 'calls': calls, 'stack': 'asgi' if asgi else 'wsgi'}
+            case = {'helper': 'append_link', 'calls': calls, 'stack': stack}
+            sess.case(case); sess.op('new', 'ok')
+            done = []
             try:
                 for tgt, rel, kw in calls:
-                    resp.append_link(tgt, rel, **kw)
+                    line = rp_link_args(tgt, rel, kw)
+                    try:
+                        resp.append_link(tgt, rel, **kw)
+                        done.append((tgt, rel, kw))
+                        sess.op('alink ' + line, 'ok')
+                    except ValueError as e:
+                        sess.op('alink ' + line, 'err ValueError')
+                        ctx.count('uri_link_crossorigin_rejected')
+                        if kw.get('crossorigin', 'anonymous').lower() in ('anonymous', 'use-credentials'):
+                            raise
+                    sess.op('getk ' + cp('link'), shown(emitted_value(resp, asgi, 'link')))
+                    if rnd.random() < 0.3:   # the same call, stateless: the text built in `value`
+                        one = (falcon.asgi.Response if asgi else falcon.Response)()
+                        try:
+                            one.append_link(tgt, rel, **kw)
+                            sess.op('linkv ' + line, shown(one.get_header('link')))
+                        except ValueError:
+                            sess.op('linkv ' + line, 'err ValueError')
                 em = resp.get_header('link')
-                if not printable_ascii(em):
+                if not done:
+                    if em is not None: fail = f'no append_link call succeeded but Link = {em!r}'
+                elif not printable_ascii(em):
                     fail = f'Link header is not pure printable ASCII: {em!r}'
                 else:
                     links = split_links(em)
-                    if len(links) != len(calls):
-                        fail = f'{len(calls)} append_link calls produced {len(links)} links: {em!r}'
-                    for (tgt, rel, kw), l in zip(calls, links):
+                    if len(links) != len(done):
+                        fail = f'{len(done)} append_link calls produced {len(links)} links: {em!r}'
+                    for (tgt, rel, kw), l in zip(done, links):
                         if fail: break
                         m = re.match(r'<([^>]*)>((?:; .*)?)$', l)
                         if not m:
@@ -1102,29 +1195,40 @@ def _uris(ctx):
                         if not fail and 'anchor' in kw:
                             mm = re.search(r'; anchor="([^"]*)"', params)
                             if not mm: fail = f'anchor missing in {l!r}'
-                            else: fail = check_uri(kw['anchor'], mm.group(1), 'Link anchor')
+                            elif kw['anchor']: fail = check_uri(kw['anchor'], mm.group(1), 'Link anchor')
+                            elif mm.group(1) != '': fail = f'empty anchor emitted as {mm.group(1)!r}'
                         if not fail and '//' in rel:
                             mm = re.search(r'; rel="([^"]*)"', params)
                             if not mm: fail = f'extension rel not quoted in {l!r}'
+                            elif ' ' in rel:
+                                # each whitespace-separated member is URI-encoded on its own and the members are joined by one space
+                                got = mm.group(1).split(' '); want = rel.split()
+                                if len(got) != len(want): fail = f'rel {rel!r} emitted as {mm.group(1)!r}: {len(got)} members for {len(want)}'
+                                else: fail = next((w for w in (check_uri(x, g, 'rel member') for x, g in zip(want, got)) if w), None)
                             else:
-                                got = [urllib.parse.unquote(x, errors='strict') for x in mm.group(1).split(' ')]
-                                if got != rel.split(): fail = f'rel {rel!r} emitted as {mm.group(1)!r} does not decode back'
+                                fail = check_uri(rel, mm.group(1), 'rel')
                         if not fail and 'title' in kw and f'; title="{kw["title"]}"' not in params:
                             fail = f'title {kw["title"]!r} not rendered in {l!r}'
             except Exception as e:  # noqa
                 fail = f'append_link raised {type(e).__name__}: {e}'
             ctx.oracle(ORA, fail is None, fail, case)
             ctx.seen(('u', 'link', repr(calls)), True)
-        else:
-            s = ''.join(rnd.choice(_F_ALPHA) for _ in range(rnd.randint(1, 8)))
-            if rnd.random() < 0.5:
-                s = ''.join(ch for ch in s if ch not in '"\\') or 'f'
-            case = {'helper': kind, 'filename': s, 'stack': 'asgi' if asgi else 'wsgi'}
+        elif kind in ('downloadable_as', 'viewable_as'):
+            if rnd.random() < 0.12:
+                s = rnd.choice(_FN_SPECIAL[1:])
+            else:
+                s = ''.join(rnd.choice(_F_ALPHA) for _ in range(rnd.randint(1, 8)))
+                if rnd.random() < 0.5:
+                    s = ''.join(ch for ch in s if ch not in '"\\') or 'f'
+            case = {'helper': kind, 'filename': s, 'stack': stack}
             dtype = 'attachment' if kind == 'downloadable_as' else 'inline'
+            sess.case(case); sess.op('new', 'ok')
             try:
                 setattr(resp, kind, s)
                 em = resp.get_header('Content-Disposition')
-                if not printable_ascii(em):
+                sess.op(f'assign {kind} t{cp(s)} {cp(nfkd(s))}', 'ok')
+                sess.op(f'get {kind}', shown(emitted_value(resp, asgi, 'content-disposition')))
+                if not printable_ascii(em) and not any(ord(c) < 0x20 or ord(c) == 0x7f for c in s):
                     fail = f'{kind}: emitted {em!r} is not pure printable ASCII'
                 elif not em.startswith(dtype + '; filename='):
                     fail = f'{kind}: {em!r} does not start with "{dtype}; filename="'
@@ -1140,5 +1244,61 @@ def _uris(ctx):
                         fail = f'{kind}: filename* of {s!r} emitted as {mm.group(2)!r} decodes to {urllib.parse.unquote(mm.group(2))!r}'
             except Exception as e:  # noqa
                 fail = f'{kind} = {s!r} raised {type(e).__name__}: {e}'
+                sess.op(f'assign {kind} t{cp(s)} {cp(nfkd(s))}', 'err')
             ctx.oracle(ORA_FN, fail is None, fail, case)
             ctx.seen(('u', kind, s), True)
+            # falcon.secure_filename itself (the fallback `filename=` token), incl. the empty name and leading dots
+            t = rnd.choice(_FN_SPECIAL) if rnd.random() < 0.4 else ''.join(rnd.choice(_F_ALPHA + ['.', '.', '_', '․', 'ª']) for _ in range(rnd.randint(0, 5)))
+            sess.case({'secure_filename': t})
+            try:
+                sess.op(f'secure {cp(nfkd(t))} {cp(t)}', 'val ' + cp(falcon.secure_filename(t)))
+            except ValueError:
+                sess.op(f'secure {cp(nfkd(t))} {cp(t)}', 'err ValueError')
+        else:
+            # the remaining transforms: etag quoting, list joins, content_range, str(value); exact emitted value only (no URI claim)
+            which = rnd.choice(['etag', 'cache_control', 'vary', 'content_range', 'content_length', 'content_type', 'retry_after', 'accept_ranges', 'ascii'])
+            ctx.count('prop_' + which)
+            val_alpha = ['a', 'b', 'W', '/', '"', '"', '\\', ' ', ',', '=', '0', 'é', 'ÿ', '-']
+
+            def word(lo=0, hi=5):
+                return ''.join(rnd.choice(val_alpha) for _ in range(rnd.randint(lo, hi)))
+            if which == 'ascii':
+                t = ''.join(rnd.choice(['a', '~', '\x7f', '\x80', 'é', '日', '😀', '\x00', ' ']) for _ in range(rnd.randint(0, 4)))
+                sess.case({'_is_ascii_encodable': t})
+                sess.op(f'ascii {cp(t)}', '01'[response_helpers._is_ascii_encodable(t)])
+                ctx.seen(('p', which, t), True)
+                continue
+            if which == 'etag':
+                v = rnd.choice(['abc', '"abc"', 'W/"abc"', 'a"b', '"', '', 'x"']) if rnd.random() < 0.5 else word()
+                enc = 't' + cp(v)
+            elif which in ('cache_control', 'vary'):
+                r = rnd.random()
+                if r < 0.15: v = word()                       # a str is an iterable of its characters
+                elif r < 0.3: v = tuple(word() for _ in range(rnd.randint(0, 3)))
+                else: v = [rnd.choice(['no-store', 'public', 'max-age=60', 'Accept', '*', 'Accept-Encoding', '', word()]) for _ in range(rnd.randint(0, 4))]
+                enc = 'l' + rp_list(list(v))
+            elif which == 'content_range':
+                def num():
+                    return rnd.choice([0, 1, 5, 10, 99, 100, 12345, 2 ** 64, -1, -20, rnd.randint(0, 10 ** 6)])
+                v = tuple([num(), num(), rnd.choice([num(), '*', '10'])] + [rnd.choice(['items', 'bytes', '', 'é', 7])][:rnd.choice([0, 0, 1, 1])])
+                if rnd.random() < 0.1: v = v[:rnd.randint(0, 2)]
+                elif rnd.random() < 0.05: v = v[:3] + ('u', 'extra')
+                enc = 'r' + ('_' if not v else ','.join(rp_item(x) for x in v))
+            else:
+                v = rnd.choice([0, 7, 120, 10 ** 12, -3, '5', 'bytes', 'none', 'text/plain; charset=utf-8', '', word()])
+                enc = rp_item(v)
+            hname = {'etag': 'etag', 'cache_control': 'cache-control', 'vary': 'vary', 'content_range': 'content-range', 'content_length': 'content-length',
+                     'content_type': 'content-type', 'retry_after': 'retry-after', 'accept_ranges': 'accept-ranges'}[which]
+            case = {'property': which, 'value': v, 'stack': stack}
+            sess.case(case); sess.op('new', 'ok')
+            try:
+                setattr(resp, which, v)
+                sess.op(f'assign {which} {enc} -', 'ok')
+            except IndexError:
+                sess.op(f'assign {which} {enc} -', 'err')
+            sess.op(f'get {which}', shown(emitted_value(resp, asgi, hname)))
+            if rnd.random() < 0.2:
+                setattr(resp, which, None)
+                sess.op(f'assign {which} N -', 'ok'); sess.op(f'get {which}', shown(getattr(resp, which)))
+            ctx.seen(('p', which, repr(v)), True)
+    sess.finish()
